@@ -735,4 +735,29 @@ theorem takeFromIf_eq_spec (cls num : Nat) (hc : cls ≤ 3) (hn : num ≤ 0x1fff
         have hcn : ¬ (b.toNat / 64 = cls ∧ b.toNat % 32 = num) := fun h => hq' ((eqv _ _ hcls (by omega : b.toNat % 32 ≤ 0x1fffff)).mpr h)
         simp [hq, hcn]
 
+/-! ### the predefined constants -/
+
+/-- universal tag numbers of X.680 (table 1) for the constants the readers of the model use -/
+def universalNumbers : List (Tag × Nat) :=
+  [(Tag.END_OF_VALUE, 0), (Tag.BOOLEAN, 1), (Tag.INTEGER, 2), (Tag.BIT_STRING, 3), (Tag.OCTET_STRING, 4),
+   (Tag.NULL, 5), (Tag.OID, 6), (Tag.UTF8_STRING, 12), (Tag.SEQUENCE, 16), (Tag.SET, 17),
+   (Tag.NUMERIC_STRING, 18), (Tag.PRINTABLE_STRING, 19), (Tag.IA5_STRING, 22)]
+
+/-- **the predefined constants are the universal tags of their X.680 numbers**: each literal constant
+    (`Tag([n, 0, 0, 0])` in src/tag.rs) is what `Tag::universal(n)` builds, so everything proved for
+    `tagOf` (identifier octets, reading back, selective reading) holds for it -/
+theorem consts_universal : ∀ p ∈ universalNumbers, p.1 = tagOf 0 p.2 := by decide
+
+/-- …and they are pairwise different -/
+theorem consts_distinct : (universalNumbers.map (·.1)).Nodup := by decide
+
+/-- the identifier octets of every predefined universal or context-specific tag with a number below
+    31 are the single octet class·64 + (32 if constructed) + number -/
+theorem low_tag_octets (cls num : Nat) (c : Bool) (hc : cls ≤ 3) (hn : num ≤ 30) :
+    (tagOf cls num).write c = [UInt8.ofNat (cls * 64 + (if c then 32 else 0) + num)] := by
+  obtain ⟨t, ht, hw, _⟩ := write_eq_spec cls num c hc (by omega)
+  have : tagOf cls num = t := by simp [tagOf, ht]
+  rw [this, hw]
+  simp [identOctets, hn]
+
 end Bcder.Props.C12
